@@ -512,11 +512,13 @@ S3 ==
                    agent, fromAgent, reader, kaBuf, respC, ticker, watcher, crashed, diag, wireSeen>>
 
 (* ---------------- composition ---------------- *)
-CurCall == Calls[caller.i + 1]
 MoreCalls == caller.i < Len(Calls)
-Internal ==
+NoCall == [kind |-> "none", data |-> NIL]
+CurCall == IF MoreCalls THEN Calls[caller.i + 1] ELSE NoCall
+\* everything the server, the peer and the consumer do on their own; c = the call in progress (if active)
+Internal(c, active) ==
     \/ PumpSeesAbort
-    \/ (MoreCalls /\ (CallEnter(CurCall) \/ CallAborted(CurCall) \/ CallReturn(CurCall) \/ CallReaderGone(CurCall) \/ WTakeCall(CurCall)))
+    \/ (active /\ (CallEnter(c) \/ CallAborted(c) \/ CallReturn(c) \/ CallReaderGone(c) \/ WTakeCall(c)))
     \/ WTakeIn \/ WInClosed \/ WTakeTick \/ WReqClosed \/ WExit \/ WAborting \/ WWrite
     \/ AStep \/ AEOF
     \/ RRead \/ RHandle \/ ROut \/ ROutAborted
@@ -531,7 +533,7 @@ Terminated ==
 
 Next ==
     \/ /\ ~crashed
-       /\ \/ Internal
+       /\ \/ Internal(CurCall, MoreCalls)
           \/ (pump.i < Len(Feed) /\ PumpOffer(Feed[pump.i + 1]))
           \/ (pump.i = Len(Feed) /\ PumpFinish)
           \/ (MoreCalls /\ CallStart(CurCall))
